@@ -186,6 +186,7 @@ func runC32(c *Ctx) []Obligation {
 		c.noReach(P, "expiry.pays-nothing", []string{"(x/pocketcore/keeper.Keeper).DeleteExpiredClaims"}, `AwardCoinsForRelays|RewardForRelays|\.mint$|MintCoins|SendCoins`, "", "expired claims are removed without payment"),
 	)
 	out = append(out, c.claimDeletedUnderLookupKey(P))
+	out = append(out, sweepsVisitEverything(c, P, "(x/pocketcore/keeper.Keeper).DeleteExpiredClaims")...)
 	return out
 }
 
